@@ -36,6 +36,12 @@ if [ $# -eq 0 ]; then
   # ~450 names); names that turn out to collide with a type are listed in selftest/refactors/rename_excl.txt
   D=$(mk); python3 tool/rename_all_locals.py $D selftest/refactors/rename_excl.txt | tail -1
   run_variant $D 00b_rename_all_locals no || rc=1; rm -rf $D
+  # variant 00c: every `if (C) A else B` becomes `if (!(C)) { B } else { A }`, innermost first (tool/invert_ifs.py + build/pvmutate;
+  # ~115 statements): no rule may depend on which arm of a test is written first
+  if [ -x build/pvmutate ]; then
+    D=$(mk); python3 tool/invert_ifs.py $D | tail -1
+    run_variant $D 00c_invert_all_ifs no || rc=1; rm -rf $D
+  fi
   set -- selftest/refactors/*.patch
 fi
 for P in "$@"; do
